@@ -140,7 +140,8 @@ def rand_config(rng, fixed=None):
     a = rng.choice([1.0, 2.0, 49.618, 4.0]) if z <= 1.0 else rng.choice([49.618, 4.0, 64.0])
     if z > a:
         z = a
-    ob.update(TargetDIS=dict(Z=z, A=a))
+    # the order of the keys must not matter (a card written with sorted keys lists A first)
+    ob.update(TargetDIS=dict(Z=z, A=a) if rng.random() < 0.5 else dict(A=a, Z=z))
     kind = rng.choice(KINDS)
     heavy = rng.choice(HEAVYNESS)
     Q2 = rng.choice([dyadic(rng, 1.0, 64.0, 8), dyadic(rng, 1.0, 40000.0, 12)])
@@ -188,7 +189,10 @@ def observe_collect(cfg):
                 ihq = 4 + int(np.argmin([abs(math.log(cfg["Q2"] / m) - k.coeff.L) for m in m2]))
             ws = [float(k.partons.get(p, 0.0)) for p in PID_ORDER]
             obs_k.append((fam, type(k.coeff).__name__, ws, int(k.coeff.nf), ihq))
-        observed = ("Ok", obs_k)
+        if all(np.isfinite(w) for _f, _c, ws, _n, _i in obs_k for w in ws):
+            observed = ("Ok", obs_k)
+        else:
+            observed = ("Crash", "non-finite parton weight")
     except TypeError as e:
         if "HighScaleSplitLogs" in str(e) or "adani" in str(e).lower() or "incompatible function arguments" in str(e):
             return None, dict(cfg=cfg, skipped="adani-environment")
